@@ -995,10 +995,19 @@ Definition depvars_ok (m : model) : Prop := forall kv, In kv (m_depvars m) -> sy
 Definition with_statements (m : model) (l : list stmt) : model :=
   mkModel (m_name m) (m_description m) (m_parameters m) (m_rvs m) l (m_steps m)
           (m_datainfo m) (m_value_type m) (m_depvars m) (m_obstrans m) (m_iie m).
-(* the dictionary ModelHash encodes *)
+(* the dictionary ModelHash encodes: systems in name order (ddb8814), the dependent-variable and
+   observation-transformation mappings sorted by their (text) keys (eb87ce1; sorted() on the items
+   of a dict never has to look past the key) *)
+Definition depvar_key (kv : E * Z) : string := sym_str G (fst kv).
+Definition obstrans_key (kv : E * E) : string := ser G (fst kv).
 Definition model_canon (m : model) : model :=
   mkModel (m_name m) (m_description m) (m_parameters m) (m_rvs m) (map stmt_canon (m_statements m)) (m_steps m)
-          (m_datainfo m) (m_value_type m) (m_depvars m) (m_obstrans m) (m_iie m).
+          (m_datainfo m) (m_value_type m) (sort_by depvar_key str_leb (m_depvars m))
+          (sort_by obstrans_key str_leb (m_obstrans m)) (m_iie m).
+(* the same model with other statements and mappings *)
+Definition with_content (m : model) (l : list stmt) (dv : list (E * Z)) (ot : list (E * E)) : model :=
+  mkModel (m_name m) (m_description m) (m_parameters m) (m_rvs m) l (m_steps m)
+          (m_datainfo m) (m_value_type m) dv ot (m_iie m).
 Definition model_encode (m : model) : pyv := model_to_dict (model_canon m).
 
 End Components.
